@@ -307,3 +307,40 @@ func vh_C15_L4_release_and_threshold() {
 	vassert(calls == want, "the low-threshold callback fires exactly for a downward crossing of the threshold")
 	vcover("end")
 }
+
+// C15.L5: several streams acknowledged by one SACK. Two streams each have a message in
+// flight (different sizes); a SACK acknowledges both (cumulatively, or one cumulatively
+// and one by gap block): each stream's buffered amount shrinks by exactly its own
+// acknowledged bytes, the figures of the streams add up to the association's, and the
+// low-threshold callback fires exactly on the stream that crossed its threshold.
+func vh_C15_L5_per_stream_release() {
+	vStub("setNewRTT")
+	a, _ := vNewAssoc()
+	s1, _ := a.OpenStream(1, PayloadTypeWebRTCBinary)
+	s2, _ := a.OpenStream(2, PayloadTypeWebRTCBinary)
+	_, _ = s1.WriteSCTP(make([]byte, 3), PayloadTypeWebRTCBinary)
+	_, _ = s2.WriteSCTP(make([]byte, 5), PayloadTypeWebRTCBinary)
+	_, _ = s1.WriteSCTP(make([]byte, 7), PayloadTypeWebRTCBinary) // stays outstanding
+	a.cwnd, a.rwnd = 1<<20, 1<<20
+	budget, consumed := int64(0), false
+	a.lock.Lock()
+	chunks, _ := a.popPendingDataChunksToSend(&budget, &consumed)
+	a.lock.Unlock()
+	vassert(len(chunks) == 3, "three chunks in flight")
+	fired1, fired2 := 0, 0
+	s1.SetBufferedAmountLowThreshold(8)
+	s2.SetBufferedAmountLowThreshold(2)
+	s1.OnBufferedAmountLow(func() { fired1++ })
+	s2.OnBufferedAmountLow(func() { fired2++ })
+	base := a.cumulativeTSNAckPoint
+	sack := &chunkSelectiveAck{cumulativeTSNAck: base + 2, advertisedReceiverWindowCredit: 1 << 20}
+	if vPick(2) == 1 {
+		sack = &chunkSelectiveAck{cumulativeTSNAck: base + 1, advertisedReceiverWindowCredit: 1 << 20, gapAckBlocks: []gapAckBlock{{1, 1}}}
+	}
+	vassert(vDeliver(a, sack) == nil, "SACK ok")
+	vassert(s1.BufferedAmount() == 7, "the first stream is released exactly its own 3 acknowledged bytes")
+	vassert(s2.BufferedAmount() == 0, "the second stream is released exactly its own 5 acknowledged bytes")
+	vassert(uint64(a.BufferedAmount()) == s1.BufferedAmount()+s2.BufferedAmount(), "the streams' figures add up to the association's")
+	vassert(fired1 == 1 && fired2 == 1, "each stream that crossed its threshold is told once")
+	vcover("end")
+}
